@@ -36,8 +36,8 @@ func TestVerifFallbackDelivery(t *testing.T) {
 		var pending []pend
 		var delivered []string
 		var wantDelivered []string
-		settled := map[uint16]uint64{}  // furthest settled position
-		advanced := map[uint16]bool{}   // advanced by an ack / system event since the last save
+		settled := map[uint16]uint64{} // furthest settled position
+		advanced := map[uint16]bool{}  // advanced by an ack / system event since the last save
 		next := map[uint16]uint64{10: 1, 11: 1, 12: 1, 99: 1}
 		// a leftover entry of a vBucket that is not assigned (the file backend returns whatever the file holds)
 		stale := &models.Offset{SnapshotMarker: &models.SnapshotMarker{}, VbUUID: 3, SeqNo: 5}
